@@ -572,11 +572,25 @@ func c08Run(t *testing.T, cfg c08Cfg, h []int) (res seqx.Result) {
 				res.Desc = fmt.Sprintf("%d healthy instances, am1 restarted: sent within one gossip interval (500ms) of an identical notification of another instance: %s; union: %s", cfg.n, strings.Join(simultaneous, " ; "), strings.Join(ol, " ; "))
 				return
 			}
-			// and a later-positioned instance stays silent: what it would send was already sent by am0. (Not after a
-			// restart: the restarted instance's group timers have another phase, so a repeat that has come due may
-			// legitimately be sent by it first; duplicates are still caught by the justification rule above.)
+			// and an instance stays silent when what it would send is covered: another instance has already delivered the
+			// identical listing for the same or a NEWER flush tick within repeat_interval - even if something else was
+			// delivered in between (a flush that is sent after it has been overtaken is the stale case the justification
+			// rule cannot see). A send for a newer tick than every earlier identical delivery is not covered: group
+			// timers of different instances need not be in phase (an alert that re-fires during a later instance's
+			// peer wait keeps that instance's old group alive while position 0 opens a new one), so the instance whose
+			// tick comes first after repeat_interval sends the repeat.
 			for _, d := range att {
-				if !d.OK || d.Instance == "am0" || restarted {
+				if !d.OK || restarted {
+					continue
+				}
+				covered := false
+				for _, p0 := range att {
+					if p0.OK && p0.Instance != d.Instance && p0.Integ == d.Integ && p0.GroupKey == d.GroupKey && p0.At <= d.At && d.At-p0.At < mc.repeat &&
+						d.Tick <= p0.Tick && p0.String()[len(fmt.Sprint(p0.At)):] == d.String()[len(fmt.Sprint(d.At)):] && d.Instance > p0.Instance {
+						covered = true
+					}
+				}
+				if !covered {
 					continue
 				}
 				pos := int(d.Instance[2] - '0')
